@@ -103,3 +103,9 @@ impl Ctx {
 pub fn guard<T>(fun: impl FnOnce() -> T) -> Option<T> {
     std::panic::catch_unwind(std::panic::AssertUnwindSafe(fun)).ok()
 }
+
+/// message of the most recent panic caught by `guard` (set by the panic hook in main.rs)
+pub static LAST_PANIC: std::sync::Mutex<String> = std::sync::Mutex::new(String::new());
+pub fn last_panic() -> String {
+    LAST_PANIC.lock().map(|g| g.replace('\n', " ")).unwrap_or_default()
+}
